@@ -1,11 +1,11 @@
 package main
 
 import (
-	"strconv"
 	"fmt"
 	"go/ast"
 	"go/token"
 	"go/types"
+	"strconv"
 	"strings"
 )
 
@@ -251,6 +251,8 @@ func (e *Exec) havocAll(st *State) {
 	// fresh epoch: initial constants of heap keys are no longer valid for this state
 	e.epochN++
 	st.vars["$epoch"] = Term{fmt.Sprintf("%d", e.epochN), tInt}
+	// the paths on which this happened (joined as a condition, so that a havoc on an infeasible branch does not taint the join)
+	st.vars["$hv"] = Term{"true", tBool}
 }
 
 func isHeapKey(k string) bool {
@@ -1992,7 +1994,6 @@ func (e *Exec) specFnCall(gf *GhostFunc, args []Term, c *Ctx) Term {
 	}
 	return Term{fmt.Sprintf("(%s %s)", d.name, strings.Join(as, " ")), gf.Ret}
 }
-
 
 // decreases[group/level]: the recursion group and the level of a function in it
 func decrGroup(label string) string {
